@@ -13,9 +13,9 @@ out=/verif/seeded/$name; mkdir -p $out
 cp _seed/patch.diff $out/patch.diff; cp $demo $out/; cp _seed/notes.md $out/notes.md 2>/dev/null
 moddir=.; case "$pkgdir" in staging/*) moddir=staging/src/github.com/kubewharf/apiserver-runtime; pkgrel=./${pkgdir#staging/src/github.com/kubewharf/apiserver-runtime/};; *) pkgrel=./$pkgdir;; esac
 (cd $moddir && go test -vet=off -count=1 -run 'Seed|seed|Demo|demo' $pkgrel) > $out/demo_with_change.log 2>&1; with=$?
-git stash -q -- $(git diff --name-only) 
+git apply -R _seed/patch.diff || { echo "cannot revert patch"; exit 2; }
 (cd $moddir && go test -vet=off -count=1 -run 'Seed|seed|Demo|demo' $pkgrel) > $out/demo_without_change.log 2>&1; without=$?
-git stash pop -q
+git apply _seed/patch.diff || { echo "cannot re-apply patch"; exit 2; }
 mv $demo /tmp/seed/$id.demo.keep
 (go build ./... && go test -vet=off -count=1 ./pkg/... ./plugin/... ./cmd/... ) > $out/suite_with_change.log 2>&1; suite=$?
 mv /tmp/seed/$id.demo.keep $demo
